@@ -231,8 +231,9 @@ fn dist_case(ctx: &Ctx, rep: &mut Report, case: u64, g: &mut Sm64) {
         }
     }
     rep.max("max_ks", ks);
-    if ks > 2.6 {
-        // P(sqrt(n) D > 2.6) ~ 2.7e-6
+    if ks > 3.6 {
+        // P(sqrt(n) D > 3.6) ~ 1e-11 (the thorough tier makes 16 000 such tests per run; at the
+        // former 2.6, p ~ 2.7e-6, one run in twenty-five raised a false alarm)
         rep.violation(&format!("{name} not-standard-normal: KS"), mon, case, stats);
         return;
     }
